@@ -427,3 +427,8 @@ pub fn make_lexer_parser(
         })
     }
 }
+
+#[cfg(lexgen_verif)]
+pub fn verif_parse_regex(input: ParseStream) -> syn::Result<Regex> {
+    parse_regex(input)
+}
